@@ -25,7 +25,13 @@ FINDINGS_FILE = os.path.join(VERIF, "known_findings.json")
 def load_findings(pid):
     with open(FINDINGS_FILE) as f:
         data = json.load(f)
-    return [x for x in data.get("findings", []) if x.get("property") == pid]
+    found = [x for x in data.get("findings", []) if x.get("property") == pid]
+    # staging area used while a check is being built (merged into known_findings.json when integrated)
+    stage = os.path.join(VERIF, "findings.d", pid + ".json")
+    if os.path.exists(stage):
+        with open(stage) as f:
+            found += [x for x in json.load(f).get("findings", []) if x.get("property") == pid]
+    return found
 
 
 def _matches(finding, sig):
